@@ -147,6 +147,57 @@ type SCase struct {
 	Peers  []Peer `json:"peers"`
 	Users  int    `json:"users"` // garbage user connections on the vhost / proxy ports
 	Without int   `json:"without"` // optional listeners the server does NOT run (bit 0 vhost http, 1 vhost https, 2 tcpmux)
+	UserReqs []UserReq `json:"user_reqs,omitempty"` // generated hostile requests from anonymous users on the shared ports
+}
+
+// UserReq is one anonymous user connection: raw bytes written to one of the user-facing ports.
+type UserReq struct {
+	Slot int    `json:"slot"` // 0 vhost http, 1 vhost https, 2 tcpmux CONNECT port, 3 bind port
+	Raw  []byte `json:"raw"`
+}
+
+// genUserReq draws an HTTP-shaped request with hostile header values (the vhost http, tcpmux and bind ports all parse
+// what an anonymous user sends before any authentication), or a mangled TLS ClientHello.
+func genUserReq(t *rapid.T, l string) UserReq {
+	r := UserReq{Slot: rapid.IntRange(0, 3).Draw(t, l+"/slot")}
+	if rapid.IntRange(0, 5).Draw(t, l+"/tls") == 0 {
+		hello := []byte{0x16, 0x03, 0x01}
+		body := rapid.SliceOfN(rapid.Byte(), 0, 80).Draw(t, l+"/hello")
+		ln := rapid.SampledFrom([]int{len(body), 0, 1, 0xffff, len(body) + 7}).Draw(t, l+"/len")
+		hello = append(hello, byte(ln>>8), byte(ln), 0x01)
+		r.Raw = append(hello, body...)
+		return r
+	}
+	methods := []string{"GET", "CONNECT", "CONNECT", "POST", "OPTIONS", "PRI", "", "G\x00T"}
+	if r.Slot == 2 {
+		methods = []string{"CONNECT", "CONNECT", "CONNECT", "CONNECT", "connect", "GET", ""} // what the CONNECT port expects, mostly
+	}
+	method := rapid.SampledFrom(methods).Draw(t, l+"/method")
+	target := rapid.SampledFrom([]string{"/", "by.test:80", "by.test:443", ":0", "*", "", "http://by.test/%zz", "/" + strings.Repeat("a", 3000), "[::1", "by.test:99999"}).Draw(t, l+"/target")
+	version := rapid.SampledFrom([]string{"HTTP/1.1", "HTTP/1.1", "HTTP/1.0", "HTTP/2.0", "HTTP/9.9", ""}).Draw(t, l+"/version")
+	vals := []string{"", " ", "Basic", "Basic ", "Basic    ", "basic", "Basic !!!", "Basic dXNlcg==", "Basic dXNlcjpwdw==", "Basic Og==", "Basic =", "Bearer x", "Digest", "\xff\xfe", strings.Repeat("A", 5000),
+		"by.test", "by.test:80", "BY.TEST.", ".", "*", "[::1]:80", "-1", "0", "18446744073709551616", "chunked", "upgrade", "websocket", "h2c", "close, keep-alive"}
+	names := []string{"Host", "Host", "Proxy-Authorization", "Proxy-Authorization", "Authorization", "Connection", "Upgrade", "Content-Length", "Transfer-Encoding", "X-Forwarded-For", "Expect", "HTTP2-Settings", "Sec-WebSocket-Key", ""}
+	if r.Slot == 2 {
+		names = append(names, "Proxy-Authorization", "Proxy-Authorization", "Proxy-Authorization", "Proxy-Connection")
+	}
+	var b strings.Builder
+	b.WriteString(method + " " + target + " " + version + "\r\n")
+	n := rapid.IntRange(0, 5).Draw(t, l+"/nh")
+	for i := 0; i < n; i++ {
+		name := rapid.SampledFrom(names).Draw(t, fmt.Sprintf("%s/h%d", l, i))
+		val := rapid.SampledFrom(vals).Draw(t, fmt.Sprintf("%s/v%d", l, i))
+		sep := rapid.SampledFrom([]string{": ", ": ", ":", " : ", ":\t"}).Draw(t, fmt.Sprintf("%s/s%d", l, i))
+		b.WriteString(name + sep + val + "\r\n")
+	}
+	if rapid.IntRange(0, 6).Draw(t, l+"/unterminated") != 0 {
+		b.WriteString("\r\n")
+	}
+	if rapid.Bool().Draw(t, l+"/body") {
+		b.WriteString("0\r\n\r\nGET / HTTP/1.1\r\n\r\n")
+	}
+	r.Raw = []byte(b.String())
+	return r
 }
 
 var controlTypes = []byte{'p', 'c', 'h', 'i', 'n', '6', 'p', 'p', 'i', 'n', 'r', 's', 'u', '1', '2', '4', 'm', '5', 'w', 'v', 'o'}
@@ -172,6 +223,10 @@ func genS(t *rapid.T) SCase {
 			}
 		}
 		c.Peers = append(c.Peers, p)
+	}
+	nu := rapid.IntRange(0, 8).Draw(t, "nuserreqs")
+	for i := 0; i < nu; i++ {
+		c.UserReqs = append(c.UserReqs, genUserReq(t, fmt.Sprintf("ureq%d", i)))
 	}
 	return c
 }
@@ -405,6 +460,21 @@ func runS(c SCase) error {
 			_, _ = io.Copy(io.Discard, cn)
 		}(u)
 	}
+	for _, ur := range c.UserReqs {
+		wg.Add(1)
+		go func(ur UserReq) {
+			defer wg.Done()
+			slot := []int{fx.SlotVhostHTTP, fx.SlotVhostHTTPS, fx.SlotTCPMux, fx.SlotBind}[ur.Slot%4]
+			cn, e := net.DialTimeout("tcp", fmt.Sprintf("127.0.0.1:%d", blk.Port(slot)), time.Second)
+			if e != nil {
+				return
+			}
+			defer cn.Close()
+			_, _ = cn.Write(ur.Raw)
+			_ = cn.SetReadDeadline(time.Now().Add(200 * time.Millisecond))
+			_, _ = io.Copy(io.Discard, cn)
+		}(ur)
+	}
 	wg.Wait()
 	time.Sleep(50 * time.Millisecond)
 
@@ -472,7 +542,7 @@ func classS(c SCase) fx.Class {
 
 func TestFrpsBarrage(t *testing.T) {
 	fx.Prelease(2)
-	fx.Run(t, fx.Spec[SCase]{Prop: "C16", Name: "frps_barrage", Quick: 240, Thorough: 4000, Gen: genS, Run: runS, Class: classS, ShrinkTime: "60s"})
+	fx.Run(t, fx.Spec[SCase]{Prop: "C16", Name: "frps_barrage", Journal: true, Quick: 240, Thorough: 4000, Gen: genS, Run: runS, Class: classS, ShrinkTime: "60s"})
 }
 
 // ---- frpc against a hostile server ------------------------------------------------------------------
@@ -672,7 +742,7 @@ remotePort = 6001
 }
 
 func TestFrpcHostileServer(t *testing.T) {
-	fx.Run(t, fx.Spec[CCase]{Prop: "C16", Name: "frpc_hostile_server", Quick: 120, Thorough: 2000, Gen: genCC, Run: runCC, ShrinkTime: "60s",
+	fx.Run(t, fx.Spec[CCase]{Prop: "C16", Name: "frpc_hostile_server", Journal: true, Quick: 120, Thorough: 2000, Gen: genCC, Run: runCC, ShrinkTime: "60s",
 		Class: func(c CCase) fx.Class {
 			b, _ := json.Marshal(c)
 			return fx.Class{NonTrivial: len(c.Msgs)+len(c.Starts)+c.Flood >= 2, Fingerprint: string(b)}
